@@ -191,6 +191,38 @@ def generate(rng, tier):
     return cs
 
 
+class _LineReader:
+    """A minimal file-like object (what a decompressing or network reader looks like): `readline`, iteration over lines, `read`, `close`."""
+
+    def __init__(self, text):
+        self._lines = text.splitlines(keepends=True)
+        self._k = 0
+        self.closed = False
+
+    def readline(self):
+        if self._k >= len(self._lines):
+            return ""
+        self._k += 1
+        return self._lines[self._k - 1]
+
+    def read(self, *_):
+        out = "".join(self._lines[self._k:])
+        self._k = len(self._lines)
+        return out
+
+    def __iter__(self):
+        return self
+
+    def __next__(self):
+        line = self.readline()
+        if not line:
+            raise StopIteration
+        return line
+
+    def close(self):
+        self.closed = True
+
+
 def impl(case):
     text, dtype, as_path, gid = case["args"][:4]
     opened = []
@@ -214,9 +246,34 @@ def impl(case):
             mine = [f for f in opened if getattr(f, "name", None) == path]
             closed = len(mine) == 1 and mine[0].closed
         else:
-            fobj = _io.StringIO(text)
-            r = C.call(vd.load_surfer, fobj, dtype=dtype)
-            closed = not fobj.closed          # a handle given by the caller must be left open
+            # an open file OBJECT in one of the forms callers have: an in-memory text buffer, a temporary-file wrapper (not an io.IOBase
+            # subclass: it delegates), the caller's own handle from open(), or any object that reads lines (duck typing: `readline`)
+            import zlib
+            kind_ = zlib.crc32(("fobj" + case["op"][:3000]).encode()) % 4
+            tmp_path = None
+            if kind_ == 0:
+                fobj = _io.StringIO(text)
+            elif kind_ == 1:
+                fobj = tempfile.NamedTemporaryFile("w+", suffix=".grd", dir=C.WORK)
+                fobj.write(text)
+                fobj.seek(0)
+            elif kind_ == 2:
+                fd, tmp_path = tempfile.mkstemp(suffix=".grd", dir=C.WORK)
+                os.write(fd, text.encode())
+                os.close(fd)
+                fobj = real_open(tmp_path, "r")
+            else:
+                fobj = _LineReader(text)
+            try:
+                r = C.call(vd.load_surfer, fobj, dtype=dtype)
+                closed = not fobj.closed          # a handle given by the caller must be left open
+            finally:
+                try:
+                    fobj.close()
+                except Exception:  # noqa: BLE001
+                    pass
+                if tmp_path and os.path.exists(tmp_path):
+                    os.remove(tmp_path)
     finally:
         if path and os.path.exists(path):
             os.remove(path)
